@@ -29,6 +29,10 @@ pub struct A1Job {
     pub global: Option<(u8, u8, bool)>,
     pub reverse: bool,
     pub thorough: bool,
+    /// how the logger is installed: 0 builder with ignore_crate, 1 LogTracer::init / init_with_filter
+    /// (no ignore list), 2 builder with ignore_all, 3 LogTracer::new() handed to log::set_boxed_logger
+    #[serde(default)]
+    pub via: u8,
 }
 
 fn log_filter(n: u8) -> log::LevelFilter {
@@ -187,14 +191,31 @@ fn a1_records(job: &A1Job, thr: u8, rule: u8, hint: bool, seen: &Arc<Mutex<Vec<S
 
 fn run_a1(job: &A1Job) -> A1Res {
     let mut res = A1Res::default();
-    let mut b = tracing_log::LogTracer::builder();
-    if job.max < 6 {
-        b = b.with_max_level(log_filter(job.max));
-    }
-    for i in &job.ignore {
-        b = b.ignore_crate(i.clone());
-    }
-    if let Err(e) = b.init() {
+    let installed = match job.via {
+        1 => {
+            if job.max < 6 {
+                tracing_log::LogTracer::init_with_filter(log_filter(job.max))
+            } else {
+                tracing_log::LogTracer::init()
+            }
+        }
+        3 => log::set_boxed_logger(Box::new(tracing_log::LogTracer::new())).map(|()| log::set_max_level(if job.max < 6 { log_filter(job.max) } else { log::LevelFilter::max() })),
+        v => {
+            let mut b = tracing_log::LogTracer::builder();
+            if job.max < 6 {
+                b = b.with_max_level(log_filter(job.max));
+            }
+            if v == 2 {
+                b = b.ignore_all(job.ignore.iter().cloned());
+            } else {
+                for i in &job.ignore {
+                    b = b.ignore_crate(i.clone());
+                }
+            }
+            b.init()
+        }
+    };
+    if let Err(e) = installed {
         res.bad.push((json!({"a1": job}), format!("LogTracer::init failed: {}", e)));
         return res;
     }
@@ -581,7 +602,12 @@ pub fn run(args: &Args) -> i32 {
             if ig.len() == 3 && max != (k % 7) as u8 {
                 continue;
             }
-            jobs.push(Job::A1(A1Job { ignore: ig.clone(), max, global: None, reverse: k % 2 == 1, thorough }));
+            jobs.push(Job::A1(A1Job { ignore: ig.clone(), max, global: None, reverse: k % 2 == 1, thorough, via: if ig.len() == 2 && k % 3 == 0 { 2 } else { 0 } }));
+            if ig.is_empty() {
+                for via in [1u8, 3] {
+                    jobs.push(Job::A1(A1Job { ignore: vec![], max, global: None, reverse: via == 3, thorough, via }));
+                }
+            }
         }
     }
     for max in 0..7u8 {
@@ -591,7 +617,7 @@ pub fn run(args: &Args) -> i32 {
                     if !thorough && (max + thr + rule) % 3 != 0 {
                         continue;
                     }
-                    jobs.push(Job::A1(A1Job { ignore: if rule == 1 { vec!["ab".into()] } else { vec![] }, max, global: Some((thr, rule, hint)), reverse: false, thorough }));
+                    jobs.push(Job::A1(A1Job { ignore: if rule == 1 { vec!["ab".into()] } else { vec![] }, max, global: Some((thr, rule, hint)), reverse: false, thorough, via: 0 }));
                 }
             }
         }
